@@ -18,6 +18,7 @@ import (
 	"bytes"
 	"encoding/hex"
 	"fmt"
+	"strconv"
 	"strings"
 
 	"github.com/dolthub/go-mysql-server/sql"
@@ -378,6 +379,14 @@ func interfaceValueAsSqlString(ctx *sql.Context, ti typeinfo.TypeInfo, value int
 			return "0", nil
 		default:
 			return str, nil
+		}
+	case querypb.Type_BIT:
+		// BIT values are rendered by SqlColToStr as raw bytes, which is not a parseable literal
+		switch v := value.(type) {
+		case uint64:
+			return strconv.FormatUint(v, 10), nil
+		default:
+			return hexEncodeBytes([]byte(str)), nil
 		}
 	case querypb.Type_TIME, querypb.Type_YEAR, querypb.Type_DATETIME, querypb.Type_TIMESTAMP, querypb.Type_DATE:
 		return singleQuote + str + singleQuote, nil
